@@ -237,7 +237,9 @@ func Execute(o Options, main func()) *Result {
 	}
 	e := &exec{o: o, locks: map[unsafe.Pointer]*lockSt{}, res: &Result{Trace: make([]Decision, 0, 128)}, now: o.Epoch, objH: map[uintptr]H{}, optBuf: make([]option, 0, 8)}
 	startWatchdog()
+	slotMu.Lock()
 	slots = map[uintptr][]any{}
+	slotMu.Unlock()
 	setEx(e)
 	t := e.newThread("main", false)
 	t.mail.kind = OpStart
@@ -824,26 +826,28 @@ func (e *exec) rendezvous(snd *thread, sndSel int, ch any, rcv *thread, rcvSel i
 		}
 	}
 	p := cands[k]
-	caseOf := func(t *thread, send bool) int {
-		if t.mail.kind != OpSelect {
-			return 0
-		}
-		key := chanKey(ch)
-		for i, c := range t.mail.cases {
-			if c.Send == send && chanKey(c.Ch) == key {
-				return i
-			}
-		}
-		return 0
-	}
 	if snd == nil {
-		snd, sndSel = p, caseOf(p, true)
+		snd, sndSel = p, caseOf(p, ch, true)
 	} else {
-		rcv, rcvSel = p, caseOf(p, false)
+		rcv, rcvSel = p, caseOf(p, ch, false)
 	}
 	rcv.committed, rcv.forcedSel = true, rcvSel
 	snd.mail.slot = true
 	return e.resume(snd, sndSel)
+}
+
+//go:norace
+func caseOf(t *thread, ch any, send bool) int {
+	if t.mail.kind != OpSelect {
+		return 0
+	}
+	key := chanKey(ch)
+	for i, c := range t.mail.cases {
+		if c.Send == send && chanKey(c.Ch) == key {
+			return i
+		}
+	}
+	return 0
 }
 
 // resume hands the baton to t (which performs its pending operation with selection sel) and waits
@@ -867,6 +871,18 @@ func (e *exec) resume(t *thread, sel int) bool {
 	giveBaton(t)
 	waitSched()
 	// the thread is back at a gate (or exited): process what it did meanwhile
+	e.processNotes(t)
+	if m.kind == OpExit {
+		t.done = true
+		e.userCnt -= t.user
+		t.user = 0
+	}
+	return true
+}
+
+//go:norace
+func (e *exec) processNotes(t *thread) {
+	m := &t.mail
 	for _, n := range m.notes {
 		switch n.kind {
 		case noteUnlock:
@@ -892,11 +908,91 @@ func (e *exec) resume(t *thread, sel int) bool {
 		}
 	}
 	m.notes = m.notes[:0]
-	if m.kind == OpExit {
-		t.done = true
-		e.userCnt -= t.user
-		t.user = 0
+}
+
+// solo is the fast path of a gate: when the calling thread is the only live thread and no timer
+// is overdue, the scheduler would have exactly one option (this thread), so the gate is passed
+// without handing the baton over. It performs what the scheduler would have done (lock table,
+// causal hash, step count). Not used in the race build (scheduler-private maps would be touched
+// from thread goroutines) nor in verbose mode.
+//
+//go:norace
+func (e *exec) solo(t *thread) bool {
+	if RaceBuild || e.o.Verbose || t.committed || e.frozen {
+		return false
 	}
+	m := &t.mail
+	e.processNotes(t)
+	for _, o := range e.threads {
+		if o != t && !o.done {
+			return false
+		}
+	}
+	for _, tm := range e.timers {
+		if tm.state == tmPending && tm.when <= e.now {
+			return false
+		}
+	}
+	switch m.kind {
+	case OpPoint:
+	case OpLock:
+		st := e.locks[m.obj]
+		if st != nil && (st.writer != nil || st.readers > 0) {
+			return false
+		}
+		if st == nil {
+			st = &lockSt{}
+			e.locks[m.obj] = st
+		}
+		st.writer = t
+	case OpRLock:
+		st := e.locks[m.obj]
+		if st != nil && st.writer != nil {
+			return false
+		}
+		if st == nil {
+			st = &lockSt{}
+			e.locks[m.obj] = st
+		}
+		st.readers++
+	case OpRecv:
+		if isUnbuffered(m.ch) && !isClosed(m.ch) || !e.recvReady(t, m.ch) {
+			return false
+		}
+	case OpSend:
+		if isUnbuffered(m.ch) || !e.sendReady(t, m.ch) {
+			return false
+		}
+	case OpSelect:
+		ready, idx := 0, -1
+		for i, c := range m.cases {
+			if isUnbuffered(c.Ch) && !isClosed(c.Ch) {
+				return false
+			}
+			if c.Send && e.sendReady(t, c.Ch) || !c.Send && e.recvReady(t, c.Ch) {
+				ready++
+				idx = i
+			}
+		}
+		if ready > 1 || ready == 0 && !m.hasDef {
+			return false
+		}
+		m.sel = idx
+		e.res.Steps++
+		if e.res.Steps > e.o.Horizon {
+			return false
+		}
+		e.event(t, idx)
+		return true
+	default:
+		return false
+	}
+	e.res.Steps++
+	if e.res.Steps > e.o.Horizon {
+		return false
+	}
+	m.sel = 0
+	e.event(t, 0)
 	return true
 }
 
@@ -1011,6 +1107,10 @@ func gate(kind OpKind, obj unsafe.Pointer, ch any, cases []Case, hasDef bool, n 
 	m.kind, m.obj, m.ch, m.cases, m.hasDef, m.n, m.tag = kind, obj, ch, cases, hasDef, n, tag
 	if e.o.Verbose || e.o.LeakOracle {
 		m.where = where(3)
+	}
+	m.slot = false
+	if e.solo(t) {
+		return m.sel
 	}
 	signalSched()
 	waitBaton(t)
